@@ -599,3 +599,4 @@ def distribution(results):
                 d["flow_with_errors"] += errc > 0
                 d["flow_loops"] += len(prov) != len(set(prov))
     return d
+
